@@ -34,8 +34,34 @@ def fe_is_zero(I, x):
     """decision  x == 0  (canonical key, sign-normalised)"""
     if x.is_zero_poly(): return True
     if x.is_const(): return x.const_value() == 0
+    nz = getattr(I.ctx, 'nonzero', None)
+    if nz: x = strip_nonzero(x, nz)
+    if x.is_const(): return x.const_value() == 0
     sg = x.lead_sign(); xn = x if sg > 0 else x.neg()
-    return I.ctx.decide(xn.term == 0, key='zero:' + xn.key())
+    r = I.ctx.decide(xn.term == 0, key='zero:' + xn.key())
+    if r:
+        zh = I.ctx.__dict__.setdefault('zero_hyps', {})
+        zh[xn.key()] = xn
+    return r
+
+def strip_nonzero(x, nz):
+    """divide out powers of symbols known to be nonzero that are common to every monomial (a field has no zero divisors)"""
+    for v in nz:
+        k = min((dict(m).get(v, 0) for m in x.d), default=0)
+        if k:
+            d = {}
+            for m, c in x.d.items():
+                mm = dict(m); mm[v] -= k
+                if mm[v] == 0: del mm[v]
+                d[tuple(sorted(mm.items()))] = c
+            t = z3.IntVal(0)
+            for m, c in sorted(d.items()):
+                mon = z3.IntVal(c)
+                for vv, kk in m:
+                    for _ in range(kk): mon = mon * z3.Int(vv)
+                t = t + mon
+            x = FE(x.field, d, t)
+    return x
 
 def fe_eq(I, a, b):
     return fe_is_zero(I, a.sub(b))
